@@ -2,7 +2,9 @@
 Search engine: seeded generation of runs, parallel batches, minimisation, replay files,
 known-findings handling and evidence.
 """
+import contextlib
 import faulthandler
+import io
 import hashlib
 import json
 import os
@@ -16,7 +18,7 @@ import multiprocessing as mp
 
 from . import world as W
 from .core import Run, Violation, Foreign, HarnessError, HANDLERS  # noqa: F401
-from . import ops_struct, ops_meta, ops_data, ops_tree, ops_refuse  # noqa: F401  (registers ops)
+from . import ops_struct, ops_meta, ops_data, ops_tree, ops_refuse, ops_fault  # noqa: F401  (registers ops)
 
 VERIF = os.path.dirname(os.path.dirname(os.path.abspath(__file__)))
 OUT = os.path.join(VERIF, "out")
@@ -54,6 +56,11 @@ def _finish_result(run, out):
 
 def _execute(profile, seed, knobs, ops):
     """ops is None: generate; else replay exactly."""
+    with contextlib.redirect_stdout(io.StringIO()):      # the library prints on some failures
+        return _execute_(profile, seed, knobs, ops)
+
+
+def _execute_(profile, seed, knobs, ops):
     out = {"seed": seed, "violation": None, "foreign": None, "error": None}
     run = None
     try:
@@ -150,7 +157,8 @@ def minimise(profile, seed, knobs, ops, signature, budget_s=90):
 def write_replay(profile, res, ops, path=None, extra=None):
     os.makedirs(REPLAYS, exist_ok=True)
     if path is None:
-        path = os.path.join(REPLAYS, "%s-%d.json" % (profile.prop, res["seed"]))
+        tag = hashlib.sha256(res["violation"]["signature"].encode()).hexdigest()[:6]
+        path = os.path.join(REPLAYS, "%s-%d-%s.json" % (profile.prop, res["seed"], tag))
     doc = {"property": profile.prop, "profile": profile.name, "seed": res["seed"], "knobs": res["knobs"],
            "masks": list(profile.masks),
            "ops": ops, "expected_signature": res["violation"]["signature"],
